@@ -18,12 +18,13 @@
 /* exact number of bytes snappy_emit_copy may use for (offset,len), len >= 4:
  * k 64-byte chunks (3 bytes each) while len >= 68, one 60-byte chunk if 65..67 remain,
  * final element 2 bytes (len < 12 and offset < 2048) or 3 bytes */
-#define CQV_COPY_K(len) ((size_t)(((len) - 4) >> 6))
-#define CQV_COPY_R(len) ((size_t)((len) - (CQV_COPY_K(len) << 6)))
-#define CQV_COPY_X(len) CQV_B(CQV_COPY_R(len) > 64)                       /* 60-byte chunk present */
-#define CQV_COPY_R2(len) ((size_t)(CQV_COPY_R(len) - (CQV_COPY_X(len) << 6) + (CQV_COPY_X(len) << 2)))
-#define CQV_COPY_COST(offset, len) ((size_t)(CQV_MUL3(CQV_COPY_K(len)) + CQV_MUL3(CQV_COPY_X(len)) + 2 + \
-                                    (CQV_B(CQV_COPY_R2(len) >= 12) | CQV_B((offset) >= 2048))))
+#define CQV_COPY_K(len) ((size_t)(((len) - 4) >> 6))                       /* number of 64-byte chunks */
+#define CQV_COPY_LOW(len) ((size_t)(((len) - 4) & 63))                    /* remaining length - 4 after the chunks: 0..63 */
+/* tail: 60-byte chunk (3 bytes) when 65..67 remain (low > 60), then the final element: 3 bytes if
+ * offset >= 2048 or the final length is >= 12 (low in 8..60), else 2 bytes */
+#define CQV_COPY_TAIL(offset, len) ((size_t)(CQV_MUL3(CQV_B(CQV_COPY_LOW(len) > 60)) + 2 + \
+    (CQV_B((offset) >= 2048) | (CQV_B(CQV_COPY_LOW(len) >= 8) & CQV_B(CQV_COPY_LOW(len) <= 60)))))
+#define CQV_COPY_COST(offset, len) ((size_t)(CQV_MUL3(CQV_COPY_K(len)) + CQV_COPY_TAIL(offset, len)))
 
 /* cap < 32 + n + floor(n/6)  <=>  6*(cap+1) <= 192 + 7*n   (no division) */
 #define CQV_CAP_BELOW_BOUND(cap, n) (CQV_MUL6((size_t)(cap)) + 6 <= 192 + CQV_MUL7((size_t)(n)))
